@@ -125,6 +125,9 @@ func Gen(seed uint64, profile string) *Scenario {
 	if r.Chance(1, 6) && profile != "order" {
 		sc.CloseTask = true
 	}
+	if (profile == "rules" || profile == "clean" || profile == "trees") && r.Chance(1, 4) {
+		sc.OtherPack = true
+	}
 	return sc
 }
 
